@@ -311,7 +311,11 @@ func c12Check(k C12Case, allowance float64) (string, string) {
 					return "range", fmt.Sprintf("decoded sample %d at (%d,%d,c%d) outside [%d,%d]", v, x, y, c, lo, hi)
 				}
 				if diff := math.Abs(float64(v - src[idx])); diff > b*g+extra+1e-6 {
-					return "bound", fmt.Sprintf("|decoded-source|=%.0f at (%d,%d,c%d) exceeds declared-step bound %.3f (+allowance %.0f)", diff, x, y, c, b*g, extra)
+					site := "bound"
+					if quantiserCanOverflow(k, src, steps) {
+						site = "bound:int32-quantiser-range"
+					}
+					return site, fmt.Sprintf("|decoded-source|=%.0f at (%d,%d,c%d) exceeds declared-step bound %.3f (+allowance %.0f)", diff, x, y, c, b*g, extra)
 				}
 			}
 		}
@@ -319,8 +323,35 @@ func c12Check(k C12Case, allowance float64) (string, string) {
 	return "", ""
 }
 
+// quantiserCanOverflow reports whether, for this image and the declared steps, a wavelet
+// coefficient divided by its step and carrying the block coder's six fractional bits can
+// reach 2^31 (peak deviation from mid-range times a generous analysis peak gain of 4 for LL
+// and 8 for the detail bands). It only classifies a failure that has already been found.
+func quantiserCanOverflow(k C12Case, src []int, steps []float64) bool {
+	mid := 0
+	if !k.Signed {
+		mid = 1 << (k.P - 1)
+	}
+	peak := 0.0
+	for _, v := range src {
+		if a := math.Abs(float64(v - mid)); a > peak {
+			peak = a
+		}
+	}
+	for b, st := range steps {
+		g := 8.0
+		if b == 0 {
+			g = 4
+		}
+		if st > 0 && peak*g/st*64 >= math.Ldexp(1, 31) {
+			return true
+		}
+	}
+	return false
+}
+
 func runC12(c *Ctx) {
-	c.R.Rule = "irreversible 9/7 single-tile, no rate target: sizes 1..24 (quick) / 1..96 (thorough) with the per-sample bound computed from the QCD step sizes of the emitted stream through an independent float64 inverse 9/7 (exact absolute impulse-response sums, separable per band); comps {1,3}; P {8,12,16}; signed; quality 1..100; levels 0..6; code-blocks 16/32/64; allowance max(2, 2^(P-13)) (+3 for colour); non-trivial = non-constant content"
+	c.R.Rule = "irreversible 9/7 single-tile, no rate target: sizes 1..24 (quick) / 1..96 (thorough) with the per-sample bound computed from the QCD step sizes of the emitted stream through an independent float64 inverse 9/7 (exact absolute impulse-response sums, separable per band); comps {1,3}; P {8,12,16}; signed; quality 1..100; levels 0..6; a class of flat range-end images at P 12..16 with quality 85..100; code-blocks 16/32/64; allowance max(2, 2^(P-13)) (+3 for colour); non-trivial = non-constant content"
 	n := c.N(400, 5000)
 	rng := c.Rng.Fork()
 	cases := make([]C12Case, n)
@@ -344,6 +375,17 @@ func runC12(c *Ctx) {
 		}
 		k.CB = rng.Pick(16, 32, 64)
 		k.Content = rng.Pick(0, 0, 1, 2, 3, 4, 5)
+		if rng.Intn(12) == 0 {
+			// flat or two-valued images at the ends of the sample range, deep samples, high
+			// quality, many levels: the largest coefficient-to-step ratios
+			k.P = rng.Pick(12, 13, 14, 15, 16, 16)
+			k.Quality = rng.Pick(100, 100, 99, 97, 95, 90, 85)
+			k.Levels = rng.Pick(6, 6, 5, 4, 3)
+			k.Content = rng.Pick(6, 6, 1)
+		}
+		if i == 0 { // smallest known member of the flat range-end class (finding F51)
+			k = C12Case{Seed: 7, W: 16, H: 16, Comps: 1, P: 16, Levels: 6, Quality: 100, CB: 64, Content: 6}
+		}
 		cases[i] = k
 	}
 	if raws := c.ReplayInputs("j2k_irreversible_bound"); raws != nil {
@@ -359,7 +401,7 @@ func runC12(c *Ctx) {
 	ParallelFor(n, c.Work, func(i int) {
 		k := cases[i]
 		key, _ := json.Marshal(k)
-		c.R.Case(string(key), k.Content != 3, fmt.Sprintf("c12.levels.%d", k.Levels), fmt.Sprintf("c12.P.%d", k.P), fmt.Sprintf("c12.comps.%d", k.Comps), fmt.Sprintf("c12.q.%d", k.Quality/10*10))
+		c.R.Case(string(key), k.Content != 3 && k.Content != 6, fmt.Sprintf("c12.levels.%d", k.Levels), fmt.Sprintf("c12.P.%d", k.P), fmt.Sprintf("c12.comps.%d", k.Comps), fmt.Sprintf("c12.q.%d", k.Quality/10*10))
 		if i < 2 {
 			c.R.Sample(k)
 		}
